@@ -246,6 +246,8 @@ var c08HandDocs = []string{
 	"e: [{key: a}, {key: b, value: ~}]\nf: [{name: x}]\n",
 	// an anchored value that itself holds an alias and a further anchor, aliased twice
 	"y: &y 1\na: &x {p: *y, q: &in 5} # la\nb: *x\nc: [*x, *in]\n",
+	// a merged anchor whose own entries hold an anchor and an alias to it
+	"a: &x {p: &in {k: 1}, r: *in} # la\nc:\n  <<: *x\n  q: 2\nb: [{<<: [*x]}]\n",
 }
 
 type c08Case struct {
